@@ -845,3 +845,77 @@ def df_foreign_roundtrip(inp, W):
         return {"back": data.deepcopy(), "observed_only": True}
     back = di.DataFrame.from_pandas(data.to_pandas()) if inp["kind"] == "pandas" else di.DataFrame.from_arrow(data.to_arrow())
     return {"back": back, "observed_only": True}
+
+# ---------------------------------------------------------------------------- C19 dt / regex
+
+class ReResult:
+    """symbolic-world result of an re function: remembers the function and its arguments"""
+    def __init__(self, name, args): self.name = name; self.args = args
+    def __hash__(self): return 0
+
+class ReToken(str):
+    def __new__(cls, name, args):
+        s = str.__new__(cls, f"<re.{name}>"); s.name = name; s.args = args
+        return s
+
+def _re_stub():
+    class Stub:
+        pass
+    def mk(name, text_result=False):
+        def f(*a, **k):
+            return ReToken(name, (a, tuple(sorted(k.items())))) if text_result else ReResult(name, (a, tuple(sorted(k.items()))))
+        return staticmethod(f)
+    for n in ("findall", "fullmatch", "match", "search", "split", "subn"):
+        setattr(Stub, n, mk(n))
+    Stub.sub = mk("sub", True)
+    return Stub
+
+@op
+def dt_op(inp, W):
+    di = W.di
+    from dataiter import dt as dtm
+    x = inp["x"]
+    fn = inp["fn"]
+    args = list(inp.get("args", []))
+    kwargs = {k: v for k, v in inp.get("kwargs", [])}
+    import contextlib
+    ctxs = []
+    if W.sym:
+        from . import stubs, symdt
+        class DT:
+            class datetime:
+                strptime = staticmethod(symdt.strptime)
+        ctxs.append(stubs.patched(dtm, "datetime", DT))
+    with contextlib.ExitStack() as st:
+        for c in ctxs: st.enter_context(c)
+        if inp.get("scalar"):
+            x0 = x[0]
+            out = getattr(dtm, fn)(x0, *args, **kwargs)
+            return {"out": out}
+        if inp.get("proxy"):
+            out = getattr(x.dt, fn)(*args, **kwargs)
+        else:
+            out = getattr(dtm, fn)(x, *args, **kwargs)
+        if fn == "to_string" and inp.get("roundtrip"):
+            back = dtm.from_string(out, args[0])
+            return {"out": out, "back": back}
+    return {"out": out}
+
+@op
+def regex_op(inp, W):
+    di = W.di
+    from dataiter import regex as rx
+    x = inp["x"]; fn = inp["fn"]
+    pos = list(inp["args"])
+    import contextlib
+    with contextlib.ExitStack() as st:
+        if W.sym:
+            from . import stubs
+            st.enter_context(stubs.patched(rx, "re", _re_stub()))
+        if inp.get("scalar"):
+            return {"out": getattr(rx, fn)(*pos, inp["scalar_value"])}
+        if inp.get("proxy"):
+            out = getattr(x.re, fn)(*pos)
+        else:
+            out = getattr(rx, fn)(*pos, x)
+    return {"out": out}
